@@ -219,15 +219,19 @@ CHECKS["C16"] = dict(
     technique="Coq proof over scope-stack model of the API entry points + fault-injection differential correspondence with a pristine-twin oracle",
     ref="DESIGN.md §3 C16")
 CHECKS["C14"] = dict(
-    text="PARTIAL. Theorems (Coq, closed): the range-trimming primitives of bounds inference never remove a value satisfying "
-         "the bound; the randomising pattern's slices are exactly the low d bits, within the chosen range these bits (sign bit "
-         "included) determine the value, a pattern equal to a feasible value is consistent with every slice constraint and pins "
-         "that value (so it has non-zero probability). The library's inferred ranges as a whole are not modelled: per call the bound "
-         "map handed to the randomizer is recorded and every solution of the hard constraints (enumerated in Coq) must lie in it, and "
-         "an unmentioned field must range over its whole type.",
+    text="PARTIAL. Theorems (Coq, closed): bounds inference of a field against constants (Rand/Bounds.v: comparisons applied "
+         "round after round until stable, membership lists sorted and merged, starting from the type's range) never cuts off a "
+         "value that satisfies all the constraints, leaves an unmentioned field its whole type, and is exact for upper bounds and "
+         "membership; the range-trimming primitives never remove a value satisfying the bound; the randomising pattern's slices "
+         "are exactly the low d bits, within the chosen range these bits (sign bit included) determine the value, a pattern equal "
+         "to a feasible value is consistent with every slice constraint and pins that value (so it has non-zero probability). "
+         "Ties: (1) for fields constrained against constants the recorded inferred domain is compared, as a set of values over "
+         "the whole type, with the model's and with the constraints' solutions; (2) for general programs (relations between "
+         "fields, arithmetic, if / implies, object trees) the inference is not modelled: per call the recorded bound map must "
+         "contain every solution of the hard constraints (enumerated in Coq) and an unmentioned field's whole type.",
     note=SOLVER_NOTE + "Which completion Boolector picks when several feasible values share the pinned bits (multi-range domains) "
          "is a runtime behaviour outside the model. Known finding bounds.python_int_semantics.",
-    technique="Coq proofs of swizzle / trimming primitives + per-call enumeration oracle on the recorded inferred domains",
+    technique="Coq proofs (bounds inference against constants, trimming and swizzle primitives) + per-field domain correspondence + per-call enumeration oracle on the recorded inferred domains",
     ref="DESIGN.md §3 C14")
 CHECKS["C15"] = dict(
     text="Theorems (Coq, closed): the per-call rewrite of a dist constraint (membership in all entries + exclusion of every "
